@@ -52,11 +52,10 @@ Proof.
     destruct (obs_of_tracked c stk C Hs) as (o & Hw & Ho).
     destruct (Inv_track p stk t c o i s I C Ho T Hit) as (I1 & Hp & P1 & Hsro & Hrl & _).
     set (s1 := track c i s) in *. inversion Hr; subst s' v. clear Hr.
-    destruct (ctx_ok_obs stk c o C Ho) as [_ Hin].
-    destruct I as [Iw Iv].
-    destruct (Inv_log_tracked p stk t c o i (sval (getn s1 i)) s1 I1 Hw Hin) as (I2 & T2 & P2); auto.
-    + intros k x Hk Hko Hx. rewrite Hsro in Hx by auto. rewrite Hrl. eapply inv_run_src; eauto.
-    + intros k Hk. eapply inv_run_ge; eauto.
+    destruct (Inv_log_tracked p stk t c o i (sval (getn s1 i)) s1 I1 C Hw) as (I2 & T2 & P2); auto.
+    + intros k x Hk Hko Hx. rewrite Hsro in Hx by auto. rewrite Hrl.
+      destruct (inv_frame _ _ _ _ I k Hk) as (_&_&F3&_). apply F3; auto.
+    + intros k Hk. destruct (inv_frame _ _ _ _ I k Hk) as (_&_&_&F4&_). exact F4.
     + unfold GraphInvariant.cur. rewrite Hd. reflexivity.
     + intros Hm; congruence.
     + split; auto. split; auto. split.
